@@ -1197,6 +1197,7 @@ structure C04St where
   lastSend : Option (Nat × Nat) := none      -- (victim, id) of the datagram just sent, waiting for its sampled delay
   lastSyn : Option (String × Nat) := none
   peerReads : List ((Nat × Nat) × (Nat × Bool)) := []  -- (peer,slot) ↦ reads after the deadline: (count, any terminal)
+  peerWrites : List ((Nat × Nat) × (Nat × Bool)) := [] -- (peer,slot) ↦ writes after the deadline: (count, any not blocked)
   afterBounce : List Nat := []               -- hosts bounced after a crash (new incarnation)
   members : List (Nat × String × Nat) := []  -- (host, group ip token, step of the join): multicast memberships
   mcSends : List (Nat × String × Nat) := []  -- (datagram id, group ip token, step) accepted sends to a group
@@ -1374,7 +1375,21 @@ def c04Line (st : C04St) (ln : Nat) (l : String) : C04St :=
           { st with peerReads := (st.peerReads.filter (·.1 != (p, sl))) ++ [((p, sl), (cur.1 + 1, cur.2 || terminal))] }
         else st
       | none => st
-    | ["OP", h, "udp_tryrecv", _, _] =>
+    | ["OP", h, wop, s, _] =>
+      if wop == "tcp_pwrite" || wop == "tcp_write" then
+        -- a peer blocked in a write on a stream to the crashed host (no flow-control credit: the victim had
+        -- stopped reading) must be unblocked by the reset too, not left pending for ever
+        let p := hostTok h
+        let sl := slotTok s
+        match st.estab.find? (fun e => e.1 == p && e.2.1 == sl) with
+        | some (_, _, x) =>
+          if st.crashStep.any (·.1 == x) && st.step ≥ assocGet st.crashStep x + 2 * st.lat + 2 then
+            let blocked := obs == ["pending"] || obs == ["err", "wouldblock"]
+            let cur := match st.peerWrites.find? (·.1 == (p, sl)) with | some q => q.2 | none => (0, false)
+            { st with peerWrites := (st.peerWrites.filter (·.1 != (p, sl))) ++ [((p, sl), (cur.1 + 1, cur.2 || !blocked))] }
+          else st
+        | none => st
+      else if wop == "udp_tryrecv" then
       let x := hostTok h
       match obs with
       | ["ok", _, _, hex] =>
@@ -1396,6 +1411,9 @@ def c04Line (st : C04St) (ln : Nat) (l : String) : C04St :=
          | some q => st.fail ln s!"h{x} is a member of {q.2.1} but never received datagram {q.1} sent to the group"
          | none => st)
       | _ => st
+      else if (wop == "udp_bind" || wop == "tcp_bind") && st.afterBounce.contains (hostTok h) && obs == ["err", "addrinuse"] then
+        st.fail ln s!"after crash and bounce h{hostTok h} cannot bind its port again: still in use"
+      else st
     | ["OP", h, "udp_join", _, g, _] =>
       if obs == ["ok"] then { st with members := st.members ++ [(hostTok h, g, st.step)] } else st
     | ["OP", h, "udp_leave", _, g, _] =>
@@ -1410,10 +1428,11 @@ def c04Line (st : C04St) (ln : Nat) (l : String) : C04St :=
                      mcSnap := st.mcSnap ++ [(id, (st.members.filter (·.2.1 == g)).map (·.1))] }
          else st
        | _, _ => st)
-    | ["OP", h, bind, _, _] =>
-      let x := hostTok h
-      if (bind == "udp_bind" || bind == "tcp_bind") && st.afterBounce.contains x && obs == ["err", "addrinuse"] then
-        st.fail ln s!"after crash and bounce h{x} cannot bind its port again: still in use" else st
+    | ["OP", "ctl", "xprobe_bw", _, _, _] =>
+      -- self-contained probe run by the harness on a private Sim: a writer parked on flow control (in a real
+      -- task, with a real waker) whose peer crashes, or drops its stream with unread data, must finish with an error
+      if obs == ["ok"] then st else
+        { (st.fail ln s!"blocked-writer probe: {" ".intercalate obs}") with res := { (st.fail ln s!"blocked-writer probe: {" ".intercalate obs}").res with pattern := "F-C04-1" } }
     | _ => st
   | _ => st
 
@@ -1426,6 +1445,10 @@ def oracleC04 (lines : List String) : OResult :=
   let res := if !res.ok then res else
     match st.peerReads.find? (fun q => q.2.1 ≥ 2 && !q.2.2) with
     | some q => { res with ok := false, detail := s!"h{q.1.1} slot {q.1.2}: reads on a stream to the crashed host stay pending (no end-of-file, no reset)" }
+    | none => res
+  let res := if !res.ok then res else
+    match st.peerWrites.find? (fun q => q.2.1 ≥ 2 && !q.2.2) with
+    | some q => { res with ok := false, pattern := "F-C04-1", detail := s!"h{q.1.1} slot {q.1.2}: writes on a stream to the crashed host stay blocked after the reset has reached the peer (no broken pipe, no reset)" }
     | none => res
   { res with cov := (if st.crashStep.isEmpty then [] else ["o:crash"]) ++ (if st.estab.isEmpty then [] else ["o:estab"]) ++
                     (if st.lateIds.isEmpty then [] else ["o:late"]) ++ (if st.afterBounce.isEmpty then [] else ["o:bounce"]) }
